@@ -1,7 +1,7 @@
 #!/bin/bash
 # run_demo.sh <id> : runs hunt/<id>/demo_test.go against /repo's working tree (copied in as an untracked test file, removed afterwards)
 export GOFLAGS=-mod=mod GOPROXY=off GOSUMDB=off GOTOOLCHAIN=local
-id=$1; d=/verif/hunt/$id
+id=$1; d=/verif/hunt/$id; [ -d $d ] || d=/verif/hunt2/$id
 pkg=$(awk '/^package /{print $2; exit}' $d/demo_test.go)
 case $pkg in
  protocol) dir=cmd/rdpgw/protocol;; web) dir=cmd/rdpgw/web;; kdcproxy) dir=cmd/rdpgw/kdcproxy;; main) dir=cmd/rdpgw;; *) echo unknown pkg $pkg; exit 2;;
@@ -9,4 +9,4 @@ esac
 f=/repo/$dir/zz_hunt_${id}_test.go
 cp $d/demo_test.go $f
 trap "rm -f $f" EXIT
-cd /repo/$dir && go test -vet=off -count=1 -timeout 300s -run "Test${id}_" . 2>&1 | tail -${2:-40}
+cd /repo/$dir && go test -vet=off -count=1 -timeout 300s -run "Test${id}" . 2>&1 | tail -${2:-40}
